@@ -73,9 +73,10 @@ class Recorder final : public StepInterface
         dump_view(index_, state);
         if (copy_)
         {
-            DetectorStepOutput o;
-            copy_steps(&o, state.steps);
-            dump_detout(index_, o);
+            // the output object is a member: reused across all iterations
+            copy_steps(&steps_, state.steps);
+            dump_detout(index_, steps_);
+            score_hits(index_, steps_);
         }
     }
     void process_steps(DeviceStepState) final {}
@@ -86,6 +87,7 @@ class Recorder final : public StepInterface
     MapVolumeDetector det_;
     bool nonzero_;
     bool copy_;
+    DetectorStepOutput steps_;
 };
 
 //---------------------------------------------------------------------------//
